@@ -100,8 +100,14 @@ TInit ==
        /\ eseq = InitSeq(e.initial)
        /\ origin = [x \in Locs(tree) |-> New]
        /\ invoked = <<>> /\ now = 0 /\ err = FALSE /\ lastop = [op |-> "none"]
+       /\ leaves = <<>> /\ seen = <<>> /\ lastmode = "proc"
 
 \* rules broken by a tick record, evaluated on the state after Tick(e.op)
+SeenBad(e, sn) ==
+  {<<x[1], x[2]>> : x \in SeqToSet(e.seen)} # {<<p, sn[p]>> : p \in DOMAIN sn}
+ZViewBad(e, T) ==
+  e.zview.agents # XOf(T, "agents") \/ e.zview.pool # XOf(T, "pool")
+
 TickFails(e) ==
   IF e.op.op = "addex" THEN (IF e.exc THEN {} ELSE {"not_rejected"})
   ELSE
@@ -117,10 +123,15 @@ TickFails(e) ==
     \cup (IF ~e.exc /\ ~TreeShapeBad(e.obs, tree') /\ InvokedBad(e, invoked')
             THEN {"invoked"} ELSE {})
     \cup (IF ViewBad(e, tree) THEN {"view"} ELSE {})
+    \cup (IF ~e.exc /\ e.obs.leaves # leaves' THEN {"leaves"} ELSE {})
+    \cup (IF ~e.exc /\ ~TreeShapeBad(e.obs, tree') /\ SeenBad(e, seen') THEN {"seen"} ELSE {})
+    \* the watcher step runs in the layer after the step director: it sees the
+    \* hierarchy as it is after the structural update
+    \cup (IF ~e.exc /\ ~TreeShapeBad(e.obs, tree') /\ ZViewBad(e, tree') THEN {"zview"} ELSE {})
 
 TTick ==
   /\ Normal /\ Ev.ev = "tick"
-  /\ Tick(Ev.op)
+  /\ IF Ev.mode = "step" THEN TickS(Ev.op) ELSE Tick(Ev.op)
   /\ TickFails(Ev) = {}
   /\ l' = l + 1 /\ UNCHANGED tid
 
@@ -133,7 +144,7 @@ TFirst ==
 Diagnose ==
   /\ More /\ DiagL[tid] = l /\ Ev.ev = "tick"
   /\ \/ /\ OpOK(tree, Ev.op) /\ ~err /\ now < MaxTicks
-        /\ Tick(Ev.op)
+        /\ IF Ev.mode = "step" THEN TickS(Ev.op) ELSE Tick(Ev.op)
         /\ PrintT(<<"DIAG", tid, l, "tick", TickFails(Ev)>>)
      \/ /\ ~(OpOK(tree, Ev.op) /\ ~err /\ now < MaxTicks)
         /\ PrintT(<<"DIAG", tid, l, "tick", {"op_not_applicable"}>>)
